@@ -330,7 +330,10 @@ def _what_if(ctx, case, spec, refs, phases, det):
     import copy
     import random
 
-    rng = random.Random(case.get("hseed", 0) ^ 0x5EED)
+    import json
+    import zlib
+
+    rng = random.Random(zlib.crc32(json.dumps(spec, sort_keys=True, default=repr).encode()) ^ 0x5EED)  # per-case choices
     f = rng.choice([30.0, 100.0, 1000.0])
     A = copy.deepcopy(spec)
     changed = []
@@ -352,6 +355,9 @@ def _what_if(ctx, case, spec, refs, phases, det):
     if st != "ok":
         return
     s1, _d = H.solve(so)
+    on_copy = rng.random() < 0.4
+    if on_copy:
+        so = copy.deepcopy(so)  # the what-if edits are made on a deep copy of the analysed system
     cm = S.comp_map(spec)
     for n in changed:
         c = cm[n]
@@ -360,7 +366,7 @@ def _what_if(ctx, case, spec, refs, phases, det):
             so.set_comp_phases(n, copy.deepcopy(c["phase"]))
     s2, d2 = H.solve(so)
     det2 = dict(det, history="variant with x%g load currents and 1/%g series resistance solved (%s), %d components changed in place, solved again"
-                % (f, f, "ok" if s1 == "ok" else "raised", len(changed)))
+                % (f, f, "ok" if s1 == "ok" else "raised", len(changed)) + (" on a copy.deepcopy() of it" if on_copy else ""))
     ctx.check("benign.solved_after_edit", s2 == "ok", dict(det2, outcome=H.exc_sig(d2) if s2 != "ok" else "returned"))
     if s2 != "ok":
         return
